@@ -23,34 +23,34 @@ import (
 // certificate, roots + server name verification, EMS requested, hello-verify on (library default),
 // no CID, no SRTP, no ALPN, default MTU.
 type Cfg struct {
-	MinV, MaxV     int // 0 = library default (1.2); 12; 13
-	Suites         []dtls.CipherSuiteID
-	Cred           string // "", "ecdsa", "ecdsa2", "ecdsa384", "rsa", "ed25519", "psk", "ecdhepsk" (psk + cert-less), "none", or a key of PKI extras
-	Cert           *tls.Certificate
-	PSK            []byte
-	PSKHint        []byte
-	Curves         []elliptic.Curve
-	EMS            int // 0 request, 1 require, 2 disable
-	ClientAuth     dtls.ClientAuthType
-	CIDLen         int // 0 = no generator; -1 = OnlySend (nil CID); n>0 = deterministic n-byte CIDs
-	SRTP           []dtls.SRTPProtectionProfile
-	MKI            []byte
-	ALPN           []string
-	MTU            int
+	MinV, MaxV      int // 0 = library default (1.2); 12; 13
+	Suites          []dtls.CipherSuiteID
+	Cred            string // "", "ecdsa", "ecdsa2", "ecdsa384", "rsa", "ed25519", "psk", "ecdhepsk" (psk + cert-less), "none", or a key of PKI extras
+	Cert            *tls.Certificate
+	PSK             []byte
+	PSKHint         []byte
+	Curves          []elliptic.Curve
+	EMS             int // 0 request, 1 require, 2 disable
+	ClientAuth      dtls.ClientAuthType
+	CIDLen          int // 0 = no generator; -1 = OnlySend (nil CID); n>0 = deterministic n-byte CIDs
+	SRTP            []dtls.SRTPProtectionProfile
+	MKI             []byte
+	ALPN            []string
+	MTU             int
 	SkipHelloVerify bool
-	Store          dtls.SessionStore
-	ReplayWindow   int
-	FlightInterval time.Duration
-	NoBackoff      bool
-	Padding        uint
-	Verify         string // "" = RootCAs(+ServerName for clients); "skip" = InsecureSkipVerify; "other" = OtherRoots
-	ServerName     string // client: default "server.test"
-	SigSchemes     []tls.SignatureScheme
-	MultiCert      []string // server: several static certificates (credential names, first = default); overrides Cred/Cert
-	GetCertSNI     string   // server: WithGetCertificate callback that returns this credential for any non-empty server name
-	Extra          []dtls.Option
-	ExtraServer    []dtls.ServerOption
-	ExtraClient    []dtls.ClientOption
+	Store           dtls.SessionStore
+	ReplayWindow    int
+	FlightInterval  time.Duration
+	NoBackoff       bool
+	Padding         uint
+	Verify          string // "" = RootCAs(+ServerName for clients); "skip" = InsecureSkipVerify; "other" = OtherRoots
+	ServerName      string // client: default "server.test"
+	SigSchemes      []tls.SignatureScheme
+	MultiCert       []string // server: several static certificates (credential names, first = default); overrides Cred/Cert
+	GetCertSNI      string   // server: WithGetCertificate callback that returns this credential for any non-empty server name
+	Extra           []dtls.Option
+	ExtraServer     []dtls.ServerOption
+	ExtraClient     []dtls.ClientOption
 }
 
 // Endpoint is one real dtls.Conn plus everything the harness observes about it.
@@ -142,11 +142,14 @@ func (f logFactory) NewLogger(string) logging.LeveledLogger { return leveled{f.s
 
 // MapStore is a harness-owned session store.
 type MapStore struct {
-	mu   sync.Mutex
-	M    map[string]dtls.Session
-	Sets int
-	Dels int
-	Gets int
+	// Alias: keep and hand out the very slices the library passed in (no defensive copies), as simple in-memory
+	// stores do; Snapshot always copies, so the oracle sees what the store held at that moment.
+	Alias bool
+	mu    sync.Mutex
+	M     map[string]dtls.Session
+	Sets  int
+	Dels  int
+	Gets  int
 }
 
 func NewMapStore() *MapStore { return &MapStore{M: map[string]dtls.Session{}} }
@@ -191,6 +194,10 @@ func (s *MapStore) Set(key []byte, v dtls.Session) error {
 	s.mu.Lock()
 	defer s.mu.Unlock()
 	s.Sets++
+	if s.Alias {
+		s.M[string(key)] = v
+		return nil
+	}
 	s.M[string(key)] = dtls.Session{ID: append([]byte(nil), v.ID...), Secret: append([]byte(nil), v.Secret...)}
 	return nil
 }
@@ -202,6 +209,9 @@ func (s *MapStore) Get(key []byte) (dtls.Session, error) {
 	v, ok := s.M[string(key)]
 	if !ok {
 		return dtls.Session{}, nil
+	}
+	if s.Alias {
+		return v, nil
 	}
 	return dtls.Session{ID: append([]byte(nil), v.ID...), Secret: append([]byte(nil), v.Secret...)}, nil
 }
@@ -219,7 +229,7 @@ func (s *MapStore) Snapshot() map[string]dtls.Session {
 	defer s.mu.Unlock()
 	out := map[string]dtls.Session{}
 	for k, v := range s.M {
-		out[k] = v
+		out[k] = dtls.Session{ID: append([]byte(nil), v.ID...), Secret: append([]byte(nil), v.Secret...)}
 	}
 	return out
 }
